@@ -114,6 +114,11 @@ def run(ctx):
     r.floor("twin-pairs", n)
     token_map(ctx, lexpr)
     close_param(ctx, lexpr)
+    from .. import tailmap
+    rt = ctx.rule("R-TAIL-MAP", "the datum list iterator classifies the cdr of a cell exactly like the value's own "
+                                "list iterator (Cons continues, Null ends, anything else is a dotted tail)")
+    n = tailmap.check(rt, lexpr, which=("cons", "datum"))
+    rt.floor("cdr-kinds", n)
 
 
 def token_map(ctx, lexpr):
